@@ -82,7 +82,6 @@ func refMD4(data []byte) [16]byte {
 	return refFinal(st, tail, uint64(len(data))*8)
 }
 
-
 // refUTF16LE encodes code points (no surrogates) as UTF-16 little-endian.
 func refUTF16LE(cps []rune) []byte {
 	var out []byte
